@@ -15,6 +15,7 @@ import Ymq.Lemmas.Gf2SmallCallsite
 import Ymq.Lemmas.Gf2SmallInverse
 import Ymq.Lemmas.Gf2SmallLoopRun
 import Ymq.Model.Gf2Genblock
+import Ymq.Props.C14
 
 namespace Ymq.C14Small
 open Ymq.Gf2Small
@@ -367,7 +368,7 @@ sampled by the K stream (checked model = checked build on every recorded iterati
 checked by the oracle (pairwise `W_iᵗ A W_j = 0` on the recorded blocks). -/
 theorem lanczos_step_no_panic_release (k : Nat) (cols : List (List Nat)) (ay : List Nat) (st : LState)
     (hM : MatOK k cols) (hay : BlockOK cols.length ay) (h : WFL cols.length st) :
-    (∃ st', lanczosStep false (qsOptimize k cols) ay st = .finished st') ∨
+    (∃ st', lanczosStep false (qsOptimize k cols) ay st = .finished st' ∧ st'.y = st.y) ∨
     (∃ st' mk, lanczosStep false (qsOptimize k cols) ay st = .continue st' mk ∧ WFL cols.length st') :=
   lanczosStep_release_ok hM hay h
 
@@ -485,6 +486,53 @@ theorem lanczos_loop_no_panic_unpurged (k : Nat) (cols : List (List Nat)) (Y0 ay
       ¬ AllProjected st') := by
   obtain ⟨hay, hInv⟩ := lanczosInit_inv hM true hY0 h
   exact lanczosLoop_checked_unpurged hM hay (lanczosInit_wf hM true hY0 h).2 fuel st _ _ acc hInv hnone
+
+/-! ### `kernel_lanczos` as one statement: initial block + main loop + final stage -/
+
+open Ymq.Gf2Lanczos Ymq.Gf2 in
+/-- "kernel_lanczos returns only genuine, non-zero dependencies" for the composed model
+`kernelLanczos` (initial block, main loop with fuel, final stage; the block of `genblock` is the input):
+every returned vector has one entry per column, is non-zero and is annihilated by `B`; both profiles.
+(C14's `lanczos_final`, which holds for every `Y`, applied to the `Y` the loop really produces.) -/
+theorem kernel_lanczos_sound (dbg : Bool) (k : Nat) (cols : List (List Nat)) (y0 : List Nat) (fuel : Nat)
+    (basis : List BVec) (hk : k ≤ 2 ^ 32) (hn : cols.length ≤ 2 ^ 32) (hwf : ∀ col ∈ cols, ∀ a ∈ col, a < k)
+    (h : kernelLanczos dbg k cols y0 fuel = some basis) :
+    ∀ v ∈ basis, v.length = cols.length ∧ isZero v = false ∧
+      mulVec k (denseOfSparse k cols) v = List.replicate k false := by
+  unfold kernelLanczos at h
+  split at h
+  · cases h
+  · split at h
+    · cases h
+    · exact Ymq.C14.lanczos_final k cols _ basis hk hn hwf h
+
+open Ymq.Gf2Lanczos Ymq.Gf2 in
+/-- release profile, totality of the composed model: on a well-formed matrix with at least 64 rows, from
+a block `Y0` (one 64-bit word per column) on which the initial computation returns (i.e. accepted by
+`genblock`: its Gram matrix is invertible), `kernelLanczos false` reaches no panic site in any of the
+three stages: an answer `none` means that the fuel ran out after `fuel` continuing iterations. -/
+theorem kernel_lanczos_release_no_panic (k : Nat) (cols : List (List Nat)) (y0 : List Nat) (fuel : Nat)
+    (hM : MatOK k cols) (hY0 : BlockOK cols.length y0)
+    (hinit : ∃ st ay, lanczosInit false (qsOptimize k cols) y0 = some (st, ay))
+    (hnone : kernelLanczos false k cols y0 fuel = none) :
+    ∃ st ay st', lanczosInit false (qsOptimize k cols) y0 = some (st, ay) ∧
+      IterN false (qsOptimize k cols) ay fuel st st' := by
+  obtain ⟨st, ay, hi⟩ := hinit
+  obtain ⟨hwf, hay⟩ := lanczosInit_wf hM false hY0 hi
+  unfold kernelLanczos at hnone
+  rw [hi] at hnone
+  simp only [] at hnone
+  cases hl : lanczosLoop false (qsOptimize k cols) ay fuel st [] with
+  | none =>
+    obtain ⟨st', hit⟩ := lanczosLoop_release hM hay fuel st [] hwf hl
+    exact ⟨st, ay, st', hi, hit⟩
+  | some r =>
+    obtain ⟨st', its⟩ := r
+    rw [hl] at hnone
+    simp only [] at hnone
+    have hy := lanczosLoop_release_y hM hay fuel st st' [] its hwf hl
+    obtain ⟨basis, hb⟩ := Ymq.C14.lanczos_final_total k cols st'.y hM.hk64 hM.hk hM.hn hy.1 hM.hwf
+    rw [hb] at hnone; cases hnone
 
 /-! ### non-vacuity and counter-witnesses (small sizes: the theorems hold for every `n`; the same
 matrices padded with null rows to 64x64 are corpus requests of the K/O streams) -/
